@@ -62,10 +62,10 @@ static char *make_jwk(const vh_key_t *k, int priv, int pad, meta_t *m, int extra
 	if (vh_below(&rng, 2)) {
 		/* raw value the item must report / its spelling inside the JWK text (some need JSON escaping, some are spelled with \u escapes) */
 		static const char *KIDS[] = { "k1", "a-much-longer-key-identifier-0123456789", "\xc3\xa9\xf0\x9f\x94\x91", "2024-01-01", " spaced ", "x",
-			"DOMAIN\\key", "say \"x\"", "tab\there", "e\xc3\xa9", "slash/and%25", "line\nbreak" };
+			"DOMAIN\\key", "say \"x\"", "tab\there", "e\xc3\xa9", "slash/and%25", "line\nbreak", "%s%s%s%n", "%n%n%999999d" };
 		static const char *KIDS_JSON[] = { "k1", "a-much-longer-key-identifier-0123456789", "\xc3\xa9\xf0\x9f\x94\x91", "2024-01-01", " spaced ", "x",
-			"DOMAIN\\\\key", "say \\\"x\\\"", "tab\\there", "e\\u00e9", "slash\\/and%25", "line\\nbreak" };
-		int kidx = (int)vh_below(&rng, 12);
+			"DOMAIN\\\\key", "say \\\"x\\\"", "tab\\there", "e\\u00e9", "slash\\/and%25", "line\\nbreak", "%s%s%s%n", "%n%n%999999d" };
+		int kidx = (int)vh_below(&rng, 14);
 		m->kid = KIDS[kidx];
 		tb_adds(&meta, ",\"kid\":\""); tb_adds(&meta, KIDS_JSON[kidx]); tb_adds(&meta, "\"");
 	}
